@@ -492,6 +492,8 @@ def oracle(base, prog, res):
         # chose with categories=, and partition columns (their category list is that of the selected paths)
         dts = frame_dtypes(df)
         cats_arg = rd[3] if rd[0] == "iter" else None
+        if len(df.columns) and str(df.columns.dtype) != base["full_columns_dtype"]:
+            probs.append(("dtype", "frame %d: the column labels have dtype %s, those of the full read %s" % (k, df.columns.dtype, base["full_columns_dtype"])))
         for name, sig in dts.items():
             ref = base["full_dtypes"].get(name)
             if ref is None or name in base["pcols"]:
@@ -706,7 +708,7 @@ def base_facts(ds, pf):
     pcols = [str(c) for c in pf.cats]
     cols = [str(c) for c in pf.columns]
     return {"rgs": rg_desc, "counts": counts, "parts": parts, "total": pos, "full_len": len(full),
-            "full_cells": frame_cells(full), "full_dtypes": frame_dtypes(full), "full_categories": frame_categories(full), "full_cols": [str(c) for c in full.columns], "full_index": index_names(full),
+            "full_cells": frame_cells(full), "full_dtypes": frame_dtypes(full), "full_categories": frame_categories(full), "full_columns_dtype": str(full.columns.dtype), "full_cols": [str(c) for c in full.columns], "full_index": index_names(full),
             "cols": cols, "pcols": pcols, "index": [ds["index"]] if ds["index"] else [], "avail": cols + pcols,
             "cat_cols": [c["name"] for c in ds["extra"] if c["kind"].startswith("cat_")],
             "full_ids": recover_ids(full)}
@@ -768,6 +770,11 @@ def run_dataset(job):
                 # a frame whose multi-index was assembled by the real code is not safe to inspect (see the finding)
                 res = ("fail", "Other:Uninspected", "multi-index frame returned; not inspected", "")
             probs = oracle(base, prog, res)
+            # a derived handle must not change the handle it was derived from (the next programs use the same `pf`)
+            now = [int(rg.num_rows) for rg in pf.row_groups]
+            if now != base["counts"]:
+                probs = list(probs) + [("aliasing", "after this program the ORIGINAL handle has row groups %r, before it had %r" % (now, base["counts"]))]
+                pf = open_dataset(ds, path)
             ra, sa, sp = model_args(base, prog)
             out["programs"].append({"prog": prog, "impl": canon_impl(res), "problems": [list(p) for p in probs[:4]],
                                     "cls": classify(ds, base, prog, probs, res) if probs else None,
